@@ -482,6 +482,33 @@ def run_relay_early(ctx: Ctx | None, case: dict) -> dict:
             if flagged_out > limit:
                 raise Violation("R4", "relay_early", f"relay forwarded {flagged_out} relay_early cells on one circuit, "
                                                      f"limit is {limit} ({flagged_in} offered)", case)
+            # the other direction: a misbehaving exit sets the flag (one unencrypted header byte) on every cell it sends
+            # back; the relay's budget holds for the circuit, whichever side spends it
+            def flag(fl):
+                cell = parse_cell(fl.data, w.prefix)
+                if cell is not None and not cell["plaintext"] and fl.origin is nxt.raw_endpoint and fl.dst == relay.address:
+                    fl.data = fl.data[:28] + b"\x01" + fl.data[29:]
+                return None
+            w.net.on_send = flag
+            mark2 = w.net.seq
+            outs = [t for t in loop.transports if not t.closed and t.local_addr[0] == "0.0.0.0" and t.sent]
+            for i in range(burst if outs else 0):
+                outs[0].inject(b"d1:rd2:id20:abcdefghij0123456789e1:t2:%02de1:y1:re" % (i % 100), ("5.5.5.5", 5555))
+            await asyncio.sleep(0.5)
+            w.net.on_send = None
+            back_in = back_out = 0
+            for fl in w.net.log:
+                cell = parse_cell(fl.data, w.prefix)
+                if cell is None or not cell["relay_early"] or fl.seq <= mark2:
+                    continue
+                if fl.origin is relay.raw_endpoint and fl.dst == origin.address:
+                    back_out += 1
+                if fl.origin is nxt.raw_endpoint:
+                    back_in += 1
+            if back_out > limit:
+                raise Violation("R4", "relay_early:backward", f"relay forwarded {back_out} relay_early cells towards the "
+                                                              f"originator on one circuit, limit is {limit} ({back_in} offered "
+                                                              f"by the exit side)", case)
         finally:
             await w.close()
     vloop.run(main)
@@ -537,6 +564,8 @@ def _enum_shard(ctx: Ctx, shard: int, nshards: int, which: int, pairs: bool) -> 
                     for kb in ("drop", "dup"):
                         jobs.append({**s, "seed": 5, "faults": [[a, ka], [b, kb]]})
     if which < 0 or which == 0:
+        for limit in (2, 4, 8):
+            jobs.append({"sub": "relay_early", "limit": limit, "burst": 20, "seed": 1})
         # a node that maintains its circuits: where in its periodic cycle the attempts start x when the application tears one
         # circuit down x which attempt never gets an answer
         for hops_, want in ((2, 3),) if not pairs else ((2, 3), (2, 2), (3, 3), (1, 3)):
